@@ -261,6 +261,31 @@ def check_san_reader(ctx, f, L):
                 sym.contains(e, lambda y: y[0] == "call" and y[1] in ("str::is_empty", "str::len", "core::str::<impl str>::is_empty", "core::str::<impl str>::len"))
         eoi = [c for c in p.conds[:g.ncond] if eoi_test(c[0])]
         ctx.check(any(c[1] in (0, 1) for c in eoi), "san-read:end-of-input", "moves are generated without first requiring the end of the text", where)
+        # every component decoded from the text (piece letter, origin file / rank, destination, promotion piece) takes
+        # part in the search: its value reaches the origin mask or what the listener captured (destination, promotion).
+        # A component that is read, found well-formed and then dropped makes the reader answer for a different text.
+        from .c08 import discr_poss
+        decoded = set()
+        for c in p.conds[:g.ncond]:
+            for t_ in sym.subterms(c[0], lambda y: y[0] == "call" and (y[1].endswith("TryInto<U>>::try_into") or (y[1].endswith("::try_from") and "cozy_chess_types" in y[1]))):
+                decoded.add(t_)
+        sinks = [g.args[1]]
+        if len(g.args) > 2 and g.args[2][0] == "closure":
+            for cap in g.args[2][2]:
+                if cap[0] == "ptr" and not cap[3]:
+                    v_ = p.store.get(cap[1])
+                    if v_ is not None:
+                        sinks.append(v_ if not cap[2] else sym.Ops(f).project(v_, cap[2]))
+                elif cap[0] != "ptr":
+                    sinks.append(cap)
+        for t_ in decoded:
+            if discr_poss(p.conds[:g.ncond], t_) != {0}:
+                continue                 # not established well-formed on this path
+            pay = ("field", ("downcast", t_, "Ok"), "0")
+            flows = any(sym.contains(s_, lambda y: y == pay) for s_ in sinks)
+            ctx.check(flows, "san-read:component-used", "a component decoded from the text is found well-formed and then takes no part in selecting the move "
+                      "(neither the origin mask nor the destination / promotion the listener compares): %s" % sym.show(t_)[:160], where,
+                      sample={"component": sym.show(t_)[:100]} if n_ok == 1 else None)
         # origin mask: own pieces of the piece kind (& rank mask & file mask)
         mask = L.lift(g.args[1])
         atoms = []
